@@ -112,6 +112,27 @@ def case_stack(ctx, ntr, agg):
         ctx.oblige("fold_is_the_member_count", int(fold[r]) == len(members), detail={"label": g})
 
 
+def case_stack_missing_labels(ctx):
+    """traces without a label (NaN in the label vector) form one group of their own, as np.unique counts them: its row is the
+    aggregate of those traces and its fold their number"""
+    import ibldsp.voltage as v
+    lab = np.array([np.nan, 1.0, np.nan, 0.0, np.nan])
+    data = [ctx.real(f"d{i}", -100, 100) for i in range(5)]
+    d_arr = arrays.mk(list(data), shape=(5, 1), tag=np.dtype(float))
+    stk, fold = ctx.call("stack", v.stack, d_arr, lab, fcn_agg=np.mean)
+    if not ctx.oblige("one_row_per_distinct_label", tuple(stk.shape) == (3, 1) and len(fold) == 3, detail={"shape": str(stk.shape)}):
+        return
+    groups = [[3], [1], [0, 2, 4]]          # labels 0, 1, NaN (np.unique order)
+    for r, members in enumerate(groups):
+        tot = 0
+        for i in members:
+            tot = tot + data[i]
+        got = stk[r, 0]
+        ok = core.eq(got, tot / len(members)) if isinstance(got, core.Sym) else False
+        ctx.oblige("row_is_the_aggregate_of_its_label", ok, detail={"row": r, "members": members, "got": got})
+        ctx.oblige("fold_is_the_member_count", int(fold[r]) == len(members), detail={"row": r})
+
+
 def case_stack_header(ctx, ntr):
     """stack with a header dictionary: every header vector is averaged per label, in the same (ascending label) order as the stacked rows and the fold"""
     import ibldsp.voltage as v
@@ -165,6 +186,17 @@ def case_stack_nan(ctx, ntr):
         gv = core.SReal(got.t) if isinstance(got, core.SReal) else got
         ctx.oblige("row_is_the_mean_of_its_present_samples", core.or_(allmiss, core.eq(gv * cnt, tot)), detail={"label": g, "members": members})
         ctx.oblige("fold_is_the_member_count", int(fold[r]) == len(members), detail={"label": g})
+
+
+def case_rolling_single_precision(ctx, n, wl, window):
+    """a constant signal held in single precision comes back as that constant to 1e-9 (the smoother may not accumulate in float32)"""
+    import ibldsp.smooth as sm
+    c = ctx.real("c", 1, 100)
+    outc = ctx.call("rolling_window_const", sm.rolling_window, arrays.mk([c] * n, tag=np.dtype(np.float32)), window_len=wl, window=window)
+    if not ctx.oblige("output_keeps_the_input_length", tuple(outc.shape) == (n,), detail={"shape": str(outc.shape)}):
+        return
+    for i in range(n):
+        ctx.oblige("constant_float32_input_returns_the_constant", and_(outc[i] - c <= c * 1e-9, c - outc[i] <= c * 1e-9), detail={"i": i, "value": outc[i]})
 
 
 def case_rolling(ctx, n, wl, window):
@@ -246,9 +278,12 @@ def cases(tier):
     cs.append(Case("stack_nanmean_default", "case_stack_nan", {"ntr": b["stack_ntr"]}))
     cs.append(Case("stack_with_header", "case_stack_header", {"ntr": b["stack_ntr"]}))
     cs.append(Case("stack_mean_single_trace", "case_stack", {"ntr": 1, "agg": "mean"}))
+    cs.append(Case("stack_missing_labels", "case_stack_missing_labels", {}))
     for window in ("flat", "hanning", "hamming", "bartlett", "blackman"):
         for wl in (3, 4, 5) if tier == "quick" else (3, 4, 5, 6, 7, 8):
             cs.append(Case(f"rolling_{window}_{wl}", "case_rolling", {"n": 7 if tier == "quick" else 9, "wl": wl, "window": window}))
+    for window in ("flat", "hanning"):
+        cs.append(Case(f"rolling_single_precision_{window}_3", "case_rolling_single_precision", {"n": 6, "wl": 3, "window": window}))
     return cs
 
 
@@ -308,6 +343,18 @@ if not np.allclose(np.asarray(hs['x']), ex) or not np.allclose(np.asarray(hs['tr
     reproduced(f"stacked header is not the per-label mean in the order of the stacked rows: x={{np.asarray(hs['x']).tolist()}} expected {{ex.tolist()}} (labels {{lab.tolist()}})")
 not_reproduced()
 """
+    if case == "stack_missing_labels":
+        d = [float(Fraction(str(m.get(f"d{i}", 0)))) for i in range(5)]
+        return f"""
+import warnings; warnings.simplefilter('ignore')
+import ibldsp.voltage as v
+lab = np.array([np.nan, 1.0, np.nan, 0.0, np.nan]); d = np.array({d}).reshape(5, 1) + np.arange(5).reshape(5, 1)
+stk, fold = v.stack(d, lab, fcn_agg=np.mean)
+exp = np.array([[d[3, 0]], [d[1, 0]], [d[[0, 2, 4], 0].mean()]])
+print(stk, fold, exp)
+if stk.shape != exp.shape or not np.allclose(stk, exp) or list(fold) != [1, 1, 3]: reproduced(f'stack with unlabelled (NaN) traces: rows {{stk.ravel().tolist()}}, fold {{list(fold)}}; expected rows {{exp.ravel().tolist()}}, fold [1, 1, 3]')
+not_reproduced()
+"""
     if case.startswith("stack_nanmean"):
         n = params["ntr"]
         lab = [m[f"w{i}"] for i in range(n)]
@@ -348,6 +395,23 @@ for k in range(o + 1):
     if out.shape != y.shape or np.max(np.abs(out - y) / np.maximum(1, np.abs(x) ** k)) > {SAVGOL_TOL!r}: bad.append((k, float(np.max(np.abs(out - y)))))
 print(bad)
 if bad: reproduced(f'non_uniform_savgol(window={{w}}, order={{o}}) does not reproduce x^k on pattern {params['pattern']}: {{bad}}')
+not_reproduced()
+"""
+    if case.startswith("rolling_single_precision"):
+        wl, window = params["wl"], params["window"]
+        cval = float(Fraction(str(m.get("c", 1))))
+        return f"""
+import ibldsp.smooth as sm
+wl, window, c = {wl}, {window!r}, {cval!r}
+bad = []
+# the witness is 6 samples long; rounding of a single-precision running sum only shows on long signals: same call, 300000 samples
+for n, val in ((6, c), (300000, c), (300000, 0.1)):
+    x = np.full(n, val, dtype=np.float32)
+    out = sm.rolling_window(x, window_len=wl, window=window)
+    err = float(np.max(np.abs(np.asarray(out, dtype=float) - float(np.float32(val)))) / abs(val)) if np.shape(out) == (n,) else None
+    print(n, val, np.shape(out), err)
+    if err is None or err > 1e-6: bad.append((n, val, err))
+if bad: reproduced(f'a constant float32 signal does not come back as the constant (length, value, relative error): {{bad}}')
 not_reproduced()
 """
     if case.startswith("rolling"):
